@@ -12,6 +12,8 @@ C04_NAMES = ("ens.hold", "resp.move", "resp.drain", "resp.fill", "resp.serve", "
 
 def select(h, prop):
     """keep only the obligations belonging to `prop` (C03 data clauses vs C04 handshake/progress clauses)"""
+    if isinstance(h, dict):      # a case that already produced results (e.g. the design could not be elaborated: reported as such) - C04 gets nothing from it
+        return h if prop != "C04" else dict(results=[], functions=[], samples=[])
     is4 = lambda n: any(n.startswith(p) for p in C04_NAMES)
     keep = (lambda n: is4(n)) if prop == "C04" else (lambda n: not is4(n))
     for d in (h.ensures, h.seqs, h.responds, h.findings):
